@@ -45,7 +45,7 @@ M = [
     ("C09-sbox", "C09", "kernel/multi_aes/aes/tab.h", "0x63, 0x7C, 0x77, 0x7B,", "0x63, 0x7C, 0x77, 0x7A,"),
     ("C09-rowshift", "C09", "kernel/multi_aes/aes/aes.cpp", "    w.g[i] = rrot(t, i << 3);", "    w.g[i] = rrot(t, (i == 3 ? 2 : i) << 3);"),
     ("C10-ctrinc-onebyte", "C10 C02", "kernel/multi_aes/aes/aesmode.cpp", "      if (iv[i] != 0)\n        break;", "      break;"),
-    ("C10-cfb-dec-inverse", "C10 C01", "kernel/multi_aes/aes/aesmode.cpp", "class AesCFB_Dec : public AesEncrypt", "class AesCFB_Dec : public AesDecrypt"),
+    ("C10-cfb-dec-inverse", "C10 C01", "kernel/multi_aes/aes/aesmode.cpp", "class AesCFB_Dec : public AesEncrypt\n{\npublic:\n  AesCFB_Dec(u8_t *key, const u8_t *iv) : AesEncrypt(key, iv){};", "class AesCFB_Dec : public AesDecrypt\n{\npublic:\n  AesCFB_Dec(u8_t *key, const u8_t *iv) : AesDecrypt(key, iv){};"),
     ("C10-factory-dec3", "C10 C01", "kernel/multi_aes/aes/aesmode.cpp", "    case 3:\n      return new AesCFB_Dec(key, iv);", "    case 3:\n      return new AesCFB_Enc(key, iv);"),
     ("C11-magic-len", "C11 C12", "kernel/fheader.cpp", "    if (sum != 8)\n        return false;\n    return (mn == Magic_Num);", "    return (mn == Magic_Num);"),
     ("C11-shortread", "C11 C12 C13", "kernel/fheader.cpp", "    if (sum != len)\n        return NULL;\n    return hash;", "    return hash;"),
